@@ -309,6 +309,8 @@ class EvalMixin:
         return sv
 
     def attr_load(self, st, base, attr, node, k):
+        if ("." + attr) in self.con.opaque and not (base.meta and base.meta[0] in ("module", "class")):
+            return self.non_none(st, base, node, lambda s1: self.apply_opaque(s1, self.con.opaque["." + attr], "." + attr, [base], {}, node, k))
         if base.ty is None and base.meta is None and attr in self.BUILTIN_METHOD_NAMES:
             base = self.narrow(st, base)
             if base.ty is None:
